@@ -21,9 +21,20 @@ def title_of(notes):
 def one(sid):
     d = os.path.join(ROOT, "seeded", sid)
     notes = open(os.path.join(d, "NOTES.md")).read() if os.path.exists(os.path.join(d, "NOTES.md")) else ""
-    out = subprocess.run([os.path.join(ROOT, "tools/seedtest.sh"), "seeded/" + sid], capture_output=True, text=True).stdout
-    m = re.search(r"exit=(\d+) violations=(\d+)\s*(.*)", out)
-    rc, nv, first = (int(m.group(1)), int(m.group(2)), m.group(3).strip()) if m else (-1, 0, "")
+    # checks.txt (optional) names the checks expected to catch the change when it is not (only) the
+    # property's own: e.g. a cross-talk defect filed under an encoding property is C14's to catch
+    checks = [sid.split("-")[0]]
+    cf = os.path.join(d, "checks.txt")
+    if os.path.exists(cf):
+        checks = open(cf).read().split()
+    rc, nv, first, results = -1, 0, "", []
+    for chk in checks:
+        out = subprocess.run([os.path.join(ROOT, "tools/seedtest.sh"), "seeded/" + sid, "quick", chk], capture_output=True, text=True).stdout
+        m = re.search(r"exit=(\d+) violations=(\d+)\s*(.*)", out)
+        r1, n1, f1 = (int(m.group(1)), int(m.group(2)), m.group(3).strip()) if m else (-1, 0, "")
+        results.append({"check": chk, "exit": r1, "violation_lines": n1, "first_signature": f1[:300]})
+        if r1 == 1 and n1 > 0 and not (rc == 1 and nv > 0):
+            rc, nv, first = r1, n1, f1
     conf = ""
     cl = os.path.join(d, "confirm.log")
     if os.path.exists(cl):
@@ -47,7 +58,7 @@ def one(sid):
         "check": {
             "command": "tools/seedtest.sh seeded/%s (./check %s quick against a scratch copy of /repo with the change applied)" % (sid, sid.split("-")[0]),
             "exit": rc, "violation_lines": nv, "first_signature": first[:300],
-            "caught": rc == 1 and nv > 0,
+            "caught": rc == 1 and nv > 0, "per_check": results,
         },
     }
     if prev.get("origin"): meta["origin"] = prev["origin"]
